@@ -301,12 +301,15 @@ QSL_CELLS = (
     ("&", [("", None), ("", None)]),
     ("a=1&a=1", [("a", "1"), ("a", "1")]),
     ("k=v=w&x", [("k", "v=w"), ("x", None)]),
+    # '&' is the only item separator: ';', '?' and '/' are ordinary characters of a key or a value
+    ("center=48.85;2.35&zoom=12", [("center", "48.85;2.35"), ("zoom", "12")]),
+    ("a;b&c=d?e/f", [("a;b", None), ("c", "d?e/f")]),
 )
 
 
 def rule_qsl(ctx, rule):
     """query items are cut at '&' and each item at its FIRST '=' (writer joins with the same two separators)."""
-    ctx.rule(rule, "query item splitting: safe_qsl_iter, interpreted on the item-shape classes {bare key, key=value, several '=', empty item, empty key, empty value, repeated item}, yields one (key, value-or-None) pair per '&'-separated item, cut at the FIRST '='; safe_serialize_qsl of that list is the query again (no item is dropped, merged or re-spelled)")
+    ctx.rule(rule, "query item splitting: safe_qsl_iter, interpreted on the item-shape classes {bare key, key=value, several '=', empty item, empty key, empty value, repeated item, ';' / '?' / '/' inside an item}, yields one (key, value-or-None) pair per '&'-separated item, cut at the FIRST '='; safe_serialize_qsl of that list is the query again (no item is dropped, merged or re-spelled)")
     repo = ctx.repo
     ut = repo.mod("utils")
     it = ut.func("safe_qsl_iter")
